@@ -329,7 +329,7 @@ def mia_clause(ctx, prog, clause_id):
         ctx.undecided(clause_id, 'kernels::values', 'numpy is not available to the analysis interpreter')
         return 0
     ci = prog.need_class('scared.distinguishers.mia', 'MIADistinguisherMixin')
-    f = ci.methods.get('_accumulate_core')
+    f = prog.resolve_method(ci, '_accumulate_core')
     if f is None:
         ks = [g for name, g in sorted(ci.methods.items()) if prog.numba_kind(g)[0] is not None]
         f = ks[0] if len(ks) == 1 else None
